@@ -10,7 +10,7 @@ func genC05(w *World, res *CheckResult) {
 	res.Obls = append(res.Obls, obls...)
 	res.Assumptions = append(res.Assumptions, notes...)
 	g := genRun(w)
-	res.Obls = append(res.Obls, selectObls(g.obls, `/post\[(stack|scopes|ip)\]$`, `inv-(init|pres)\[(pops|count|i|stack)\]`, `^vm\.VM\.Run/pre-sat$`, `/cover$`)...)
+	res.Obls = append(res.Obls, selectObls(g.obls, `/post\[(stack|scopes|ip)\]$`, `^vm\.VM\.Run/loop:0/entry\[(stack-empty|scopes-empty|ip|pp)\]$`, `inv-(init|pres)\[(pops|count|i|stack)\]`, `^vm\.VM\.Run/pre-sat$`, `/cover$`)...)
 	res.Assumptions = append(res.Assumptions, g.notes...)
 	res.Functions = append(res.Functions, g.funcs...)
 	for _, n := range []string{"compiler.encode", "compiler.compiler.patchJump", "compiler.compiler.calcBackwardJump", "compiler.compiler.makeConstant"} {
